@@ -24,12 +24,19 @@ def waiter_sends(b):
     return out
 
 
+def wake_capable(F, ver):
+    """Functions of shared.rs that wake parked senders (pop `waiters` and send)."""
+    out = {}
+    for b in F.find(r'^%s::shared::(MqttShared::)?[a-z_]+$' % ver):
+        if calls_on_field(b, r'VecDeque::<T, A>::pop_front$', 'waiters') and [x for x in waiter_sends(b) if x[2] and any('pop_front' in y for y in x[2])]:
+            out[b.path] = b
+    return out
+
+
 def wake_checked(F, R, ver):
     n = 0
-    for fn in ('pkt_ack_inner', 'set_cap', 'disable_wr_backpressure', 'cancel_response'):
-        b = F.body('%s::shared::MqttShared::%s' % (ver, fn))
-        if b is None:
-            continue
+    for path, b in sorted(wake_capable(F, ver).items()):
+        fn = path.split('::')[-1]
         pops = {x[0] for x in calls_on_field(b, r'VecDeque::<T, A>::pop_front$', 'waiters')}
         k = 0
         for bi, t, ap in waiter_sends(b):
@@ -63,6 +70,8 @@ def every_opening_wakes(F, R, ver):
         if not opens:
             continue
         wakes = {x[0] for x in calls_on_field(b, r'VecDeque::<T, A>::(pop_front|clear|drain)$', 'waiters')}
+        wc = wake_capable(F, ver)
+        wakes |= {bi for bi, t in b.calls() if callee_name(t) in wc}
         # a window test (`inflight.len() < cap`) that decides no slot is free also ends the obligation
         window_tests = {x[0] for x in calls_on_field(b, r'VecDeque::<T, A>::len$', 'inflight')} if b.path.endswith('::disable_wr_backpressure') else set()
         requeue = {x[0] for x in calls_on_field(b, r'VecDeque::<T, A>::push_back$', 'inflight')}
@@ -85,7 +94,7 @@ def every_opening_wakes(F, R, ver):
             ok = not bad
             if fn == 'set_cap':
                 # wake loop precedes cap.set: every path from entry to the set passes the loop head
-                ok = any(obi in b.reachable_after(w_) for w_ in wakes)
+                ok = any(obi in b.reachable_after(w_) for w_ in wakes) or (bool(wakes) and not (set(b.returns()) & b.reachable_after(obi, avoid=wakes)))
             R.ob('C13.every-opening-wakes', '%s|%s|%s' % (b.path, what, 'all-exits-wake'), ok,
                  'this function can open the send window (%s) and return normally without waking a parked sender or clearing the waiters: senders parked in wait_readiness() stay blocked although the window is open' % what,
                  b.loc(bad[0]) if bad else b.loc(obi))
@@ -105,17 +114,28 @@ def ok_exits(b):
 
 
 def wake_count(F, R, ver):
+    wc = wake_capable(F, ver)
     b = F.one(r'^%s::shared::MqttShared::disable_wr_backpressure$' % ver)
     len_locals = {t['dest']['l'] for bi, t, ap in calls_on_field(b, r'VecDeque::<T, A>::len$', 'inflight')}
-    ok = False
+    subs = set()
     for bi, j, s in b.assigns():
         rv = s['rv']
         if rv['k'] == 'bin' and rv['op'] in ('Sub', 'SubWithOverflow'):
             a = apath(b, rv['a'])
             c = op_place(rv['b'])
             if a and a[-1] == 'cap' and c and resolves(b, c['l'], len_locals):
-                ok = True
-    R.ob('C13.wake-count', '%s|disable_wr_backpressure|wakes up to cap - outstanding' % ver, ok, 'the number of senders released when back-pressure lifts must be bounded by the free slots')
+                subs.add(bi)
+    ok = bool(subs)
+    # if the waking is delegated to a helper, the bound handed over must be that difference
+    for bi, t in b.calls():
+        if callee_name(t) in wc and callee_name(t) != b.path:
+            okh = False
+            for a in t['args']:
+                og = Origin(b).of_operand(a)
+                if any(l[0] == 'binop' and l[1] in ('Sub', 'SubWithOverflow') and l[2] in subs for l in og):
+                    okh = True
+            ok = ok and okh
+    R.ob('C13.wake-count', '%s|disable_wr_backpressure|wakes up to cap - outstanding' % ver, ok, 'the number of senders released when back-pressure lifts must be bounded by the free slots (cap - outstanding), not by cap')
     b = F.one(r'^%s::shared::MqttShared::set_cap$' % ver)
     ok = False
     for bi, j, s in b.assigns():
@@ -124,6 +144,11 @@ def wake_count(F, R, ver):
             for f in s['rv']['fields']:
                 args |= leaves_args(Origin(b).of_operand(f))
             ok = ok or any(a == 2 for a, _ in args)
+    for bi, t in b.calls():
+        if callee_name(t) in wc and callee_name(t) != b.path:
+            for a in t['args']:
+                if any(x == 2 for x, _ in leaves_args(Origin(b).of_operand(a))):
+                    ok = True
     R.ob('C13.wake-count', '%s|set_cap|wakes up to cap' % ver, ok, 'set_cap must wake at most `cap` parked senders (one per slot)')
 
 
